@@ -416,7 +416,8 @@ theorem capillaryRise_far_table (F : Fn α) (h0 : GwRound0Laws F) (front : List 
 `F` with `exp = 1`, `round4 = id`, `round0 = id` satisfies all four law structures; a call on a
 two-compartment profile with the table at 0.5 m succeeds. -/
 
-def gwExF : Fn ℚ := ⟨fun _ => 1, id, id, fun x _ => x, id, id, id, id, id⟩
+def gwExF : Fn ℚ :=
+  ⟨fun _ => 1, id, id, fun x y => if y = 2 then x * x else x, id, id, id, id, id⟩
 
 example : GwExpLaws gwExF ∧ GwRoundLaws gwExF ∧ GwRoundSign gwExF ∧ GwRound0Laws gwExF :=
   ⟨⟨fun _ => by simp [gwExF]⟩, ⟨fun x => by simp [gwExF]⟩, ⟨fun x h => by simpa [gwExF] using h⟩,
